@@ -9,12 +9,12 @@ from .core import Agg, V
 from .models import canon_elem, obs
 
 KEY_ALPHA = {
-    "str": ["a", "b", None],
-    "int": [1, 2, None],
+    "str": ["", "b", None],       # '' and 0 are keys / values like any other (falsy values must not be taken for "missing")
+    "int": [0, 2, None],
     "intc": [-1, -2, None],     # hash(-1) == hash(-2)
     "eq": [1, True, 2],         # 1 == True (same group) but they are different values: key columns must reproduce them as they are
 }
-VAL_ALPHA = [1, 2, None]
+VAL_ALPHA = [0, 2, None]
 FNS = ["sum", "mean", "min", "max", "count", "stdev"]
 FORMS = ("name", "column", "external")
 
